@@ -38,7 +38,22 @@ def suite(wt):
             continue
         if e.get("Test") and e.get("Action") in ("pass", "fail"):
             (passed if e["Action"] == "pass" else failed).add("%s::%s" % (e["Package"], e["Test"]))
-    return sorted(want - passed), sorted(failed)
+    missing = sorted(want - passed)
+    # a baseline test that did not pass in the full run is re-run alone (twice at most): under a
+    # loaded machine contrib/ice/reorg's parallel tests are flaky on the unchanged tree as well
+    still = []
+    for m in missing:
+        pkg, name = m.split("::", 1)
+        rel = "./" + pkg.split("/v4/", 1)[1] if "/v4/" in pkg else "./..."
+        ok = False
+        for _ in range(2):
+            rc, _o = sh(["go", "test", "-vet=off", "-count=1", "-run", "^%s$" % name.split("/")[0], rel], wt, timeout=900)
+            if rc == 0:
+                ok = True
+                break
+        if not ok:
+            still.append(m)
+    return still, sorted(failed)
 
 
 def main():
